@@ -21,7 +21,8 @@ TIERS = {"C09": (2500, 150, 60000, 1200)}
 PROBES = {"C09": ["ensemble", "pipeline", "multiplexer", "stacking", "nested_member",
                   "skip_inverse_transform_tag", "update_propagation_checked",
                   "final_forecaster_representation_checked", "holdout_checked",
-                  "members_are_clones_checked", "parallel_member_fit", "update_params_false"]}
+                  "members_are_clones_checked", "parallel_member_fit", "update_params_false",
+                  "reconfigured_and_refitted"]}
 FAULT_KINDS = {"C09": ["schedule_ooo", "schedule_interleave", "overlap_batch", "pickle_roundtrip"]}
 RULE = {"C09": (
     "seeded composition (ensemble/pipeline/multiplexer/stacking over spy-wrapped real forecasters "
@@ -90,6 +91,7 @@ def generate(prop, rng, tier):
         total += take
     return {
         "spec": spec, "steps": steps, "fh_at_fit": fh_fit, "n0": n0, "history": hist,
+        "refit_other": rng.random() < 0.5,
         "series": {"seed": rng.randint(0, 10 ** 6), "n": total + 2, "origin": rng.choice([0, 0, 4, 30, -10]),
                    "index": rng.choice(["range", "range", "int"]), "sp": rng.choice([2, 3, 4])},
         "sched": {"mode": rng.choice(["fifo", "ooo", "interleave", "interleave"]),
@@ -248,6 +250,36 @@ def execute(prop, scen):
             updated += 1
             res.ops += 1
             res.states.add(short_hash([kind, updated, h["up"]]))
+        # ---- the same object re-configured and fitted again (set_params then fit)
+        if kind in ("mux", "ensemble") and scen.get("refit_other") and not res.violations:
+            y1 = y.iloc[:pos]
+            if kind == "mux":
+                other = (spec["selected"] + 1) % len(spec["members"])
+                spec2 = dict(spec, selected=other)
+                run("set_params", lambda: comp.set_params(selected_forecaster="m%d" % other))
+            else:
+                agg2 = {"mean": "median", "median": "max", "max": "min", "min": "mean"}[spec["aggfunc"]]
+                spec2 = dict(spec, aggfunc=agg2)
+                run("set_params", lambda: comp.set_params(aggfunc=agg2))
+            fh_fit2 = steps if C.needs_fh_at_fit(spec2) else fh_fit
+            mark = len(peers.CTX.log)
+            ok, _ = run("fit", lambda: comp.fit(y1, fh=fh_fit2))
+            if ok:
+                ref2 = Reference(spec2, steps)
+                with peers.paused():
+                    s2 = sched.Scheduler("fifo", 0)
+                    with sched.scenario_schedule(s2):
+                        try:
+                            ref2.fit(y1, fh_fit2)
+                            q = ref2.predict()
+                        except Exception:
+                            q = None
+                if q is not None:
+                    mark = len(peers.CTX.log)
+                    ok, p = run("predict", lambda: comp.predict(None if fh_fit2 else steps))
+                    if ok:
+                        res.probe("reconfigured_and_refitted")
+                        check_predict(v, res, spec2, peers.CTX.log[mark:], p, q, ref2, 0)
     res.sched = sc.stats()
     if sc.n_tasks:
         res.fault("schedule_interleave" if sc.mode == "interleave" else
@@ -522,6 +554,8 @@ def shrink_candidates(prop, scen):
     if s["history"]:
         for cand in ddmin_list(s["history"]):
             yield dict(s, history=cand)
+    if s.get("refit_other"):
+        yield dict(s, refit_other=False)
     spec = s["spec"]
     if spec["kind"] in ("ensemble", "mux", "stack") and len(spec["members"]) > 2:
         for i in range(len(spec["members"])):
